@@ -1130,4 +1130,33 @@ theorem streamLoop_no_escape {α : Type} (env : Env α)
           simp only []
           exact ih (i + 1) rest (by omega)
 
+/-- the reader loop over whole records followed by ANY bytes: the records' flows come first, then whatever the
+    loop makes of the tail (with the fuel that is left) -/
+theorem stream_records_tail {α : Type} (env : Env α) : ∀ (vs : List Value) (fl : List α) (i g : Nat)
+    (tail : Bytes), Good env i vs fl →
+    streamLoop env (vs.length + g) i (encList vs ++ tail)
+      = (fl ++ (streamLoop env g (i + vs.length) tail).1, (streamLoop env g (i + vs.length) tail).2) := by
+  intro vs
+  induction vs with
+  | nil =>
+    intro fl i g tail hg
+    cases fl with
+    | nil => simp [encList]
+    | cons _ _ => simp [Good] at hg
+  | cons v vt ih =>
+    intro fl i g tail hg
+    cases fl with
+    | nil => simp [Good] at hg
+    | cons x xt =>
+      simp only [Good] at hg
+      obtain ⟨⟨hwf, hdict, h12, hm, hd, hfs⟩, hrest⟩ := hg
+      have henc : encList (v :: vt) ++ tail = enc v ++ (encList vt ++ tail) := by simp [encList]
+      have hfuel : (v :: vt).length + g = (vt.length + g) + 1 := by simp; omega
+      rw [henc, hfuel]
+      simp only [streamLoop, load_enc v _ env.memLimit env.depth hwf h12 hm hd, isDict_mirror, hdict,
+        Bool.not_true, Bool.false_eq_true, if_false, hfs]
+      rw [ih xt (i + 1) g tail hrest]
+      have : i + 1 + vt.length = i + (v :: vt).length := by simp; omega
+      simp [this]
+
 end MitmVerif.C36
